@@ -1084,3 +1084,27 @@ package larking
 // every store in the package): the selectors proved walkable at registration are
 // the ones every later request uses.
 //@ immutable F$method. except (*path).addRule
+
+// ---------------------------------------------------------------------------
+// Metadata fidelity (C14, the parts a per-function contract can state): the keys
+// the gRPC protocol owns are reserved, handler metadata never writes a reserved
+// key into the response, and a '-bin' value is decoded whether or not it is padded.
+//@ spec ProtocolKey(k) = k == "content-type" || k == "grpc-status" || k == "grpc-message" || k == "grpc-encoding"
+//@      || k == "grpc-status-details-bin" || k == "grpc-timeout" || k == "te"
+//@ func isReservedHeader serves C14 pure
+//@   ensures [protocol-keys-reserved C14] ProtocolKey(k) ==> result
+//@   oracle !(k == "content-type" || k == "grpc-status" || k == "grpc-message" || k == "grpc-encoding" || k == "grpc-status-details-bin" || k == "grpc-timeout" || k == "te") || result
+//@ func isWhitelistedHeader serves C14 pure
+//@   ensures [only-harmless-keys-whitelisted C14] result ==> k == ":authority" || k == "user-agent"
+
+//@ func decodeBinHeader serves C14
+//@   returns (s, err)
+//@   witness verifWitnessBinHeader
+//@   ensures [padded-accepted C14] B64OK("std", v) ==> err == nil
+//@   ensures [unpadded-accepted C14] B64OK("raw", v) ==> err == nil
+//@   ensures [invalid-rejected C14] !B64OK("std", v) && !B64OK("raw", v) ==> err != nil
+
+//@ func setOutgoingHeader serves C14 partial ghost
+//@   assert at "header[textproto.CanonicalMIMEHeaderKey(k)] = vs" [reserved-keys-not-forgeable C14] !ProtocolKey(k)
+//@ func newIncomingContext serves C14 partial ghost
+//@   assert at "md[k] = vs" [protocol-keys-not-injected C14] !ProtocolKey(k)
